@@ -5,6 +5,8 @@ from .. import common as C
 from .. import coqbuild, floatcases as FC, tables as T
 from ..harness import Harness
 from . import convlib
+from .added import PRELUDE as AD_PRELUDE
+from . import added as AD
 
 PROPS = "theories/Props/C03.v"
 MODULE = "Props.C03"
@@ -24,10 +26,12 @@ def run(ctx):
     t = ctx.tables
     quick = ctx.tier == "quick"
     units = convlib.select_units(t, ctx.rng.fork("units"), 110 if quick else None)
+    from . import added as AD
+    units = list(units) + AD.pairs(t)
     base_sets = ["si", "cgs", "kgh", "fpm", "mtm", "tiny"]
     ftypes = ["f64", "f32"]
     h = Harness("c03" if quick else "c03t", ["f32", "f64", "si", "std", "autoconvert"],
-                prelude=convlib.base_prelude(base_sets, ftypes))
+                prelude=convlib.base_prelude(base_sets, ftypes) + AD_PRELUDE)
     cases = []      # (cid, slot, args)
     mlines = []     # model lines
     alines = []     # accuracy-premise lines
@@ -98,7 +102,7 @@ def run(ctx):
     thm_fail = []
     for cid, slot, args in cases:
         ty, bs, qm, un, d, vname, vb, _ = meta[cid]
-        u = t.unit(qm, un)
+        u = AD.lookup(t, qm, un)
         got = impl.get(cid)
         if d in ("c", "ka", "ks"):
             # translator validation for this unit: coefficient()/constant() bits vs model evaluation
@@ -140,10 +144,10 @@ def run(ctx):
     for cid, slot, args in cases:
         ty, bs, qm, un, d, *_ = meta[cid]
         if d == "c":
-            u = t.unit(qm, un)
+            u = AD.lookup(t, qm, un)
             clines.append(f"{cid} {ty} std (coef {T.sexp(u['coef'])})")
         elif d in ("ka", "ks"):
-            u = t.unit(qm, un)
+            u = AD.lookup(t, qm, un)
             if u["const"] is not None:
                 clines.append(f"{cid} {ty} std (coef {T.sexp(u['const'])})")
     cmodel = coqbuild.run_model(clines)
